@@ -62,7 +62,7 @@ Spec == Init /\ [][Next]_vars
 Laws ==
     /\ (kind = "lag" /\ a = 0 /\ b = NULL) => LenPreserved(s) /\ PrefixLaw(s)
     /\ kind = "lag" => LagHomogeneous(s, a, b)
-    /\ (kind = "fill" /\ a = NULL) => FillLaws(s) /\ FillRefines(s) /\ DropNoneLaws(s)
+    /\ (kind = "fill" /\ a = NULL) => FillLaws(s) /\ FillRefines(s) /\ FFillIsClosure(s) /\ DropNoneLaws(s)
     /\ (kind = "clip" /\ a = NULL /\ b = NULL) => ClipLaws(s)
     /\ kind = "uniq" => UniqRefines(s)
     /\ (kind = "cut" /\ b = 0 /\ c /\ d) => UniqueBin(a) /\ OpenBoundsTotal(a) /\ ErrorOnlyOutside(a)
